@@ -48,3 +48,14 @@ pub fn unhex_list(s: &str) -> Option<Vec<Vec<u8>>> {
 pub fn unhex_str(s: &str) -> Option<String> {
     String::from_utf8(unhex(s)?).ok()
 }
+
+pub fn hex_list(items: &[Vec<u8>]) -> String {
+    if items.is_empty() {
+        return "-".to_string();
+    }
+    items
+        .iter()
+        .map(|i| if i.is_empty() { "_".to_string() } else { hex(i) })
+        .collect::<Vec<_>>()
+        .join(",")
+}
